@@ -320,7 +320,8 @@ macro_rules! impl_div_for_primitive {
                 } else if rhs.is_one() {
                     // no-op
                 } else {
-                    *self = self.clone() / BigDecimal::from(rhs);
+                    // same shortcuts (-1, 2, -2: exact half) as `self / rhs`
+                    *self = self.clone() / rhs;
                 }
             }
         }
@@ -425,7 +426,8 @@ macro_rules! impl_div_for_primitive {
                 if !denom.is_normal() {
                     *self = BigDecimal::zero()
                 } else {
-                    *self = self.clone() / BigDecimal::try_from(denom).unwrap()
+                    // same shortcuts (1, -1, 2, -2: exact half) as `self / denom`
+                    *self = self.clone() / denom
                 };
             }
         }
